@@ -66,6 +66,7 @@ def run_unit(prop, u, tier, scratch, keep=False):
         for r in u['roots']: cmd += ['--root', r]
         for b in u.get('boundary', []): cmd += ['--boundary', b]
         for k, v in u.get('names', {}).items(): cmd += ['--name', '%s=%s' % (k, v)]
+        for k, v in u.get('names_opt', {}).items(): cmd += ['--name-opt', '%s=%s' % (k, v)]
         for k, v in u.get('types', {}).items(): cmd += ['--type', '%s=%s' % (k, v)]
         for k, v in u.get('globals', {}).items(): cmd += ['--global', '%s=%s' % (k, v)]
         r = sh(cmd, timeout=300)
